@@ -8,6 +8,9 @@ slot injectivity, advancing the start (`window_succ`), writing inside / behind /
 the window, the split into the code's two slices, and writes through `&mut` positions.
 Core Lean only (no Mathlib needed).
 -/
+set_option linter.unusedSectionVars false
+set_option linter.unusedSimpArgs false
+
 namespace Dasp.Ring
 variable {α : Type} [Inhabited α]
 
